@@ -9,7 +9,7 @@ root = os.path.dirname(os.path.dirname(os.path.abspath(__file__)))
 base = open(os.path.join(root, "tools", "seedprompt.txt")).read()
 design = open(os.path.join(root, "DESIGN.md")).read()
 tried = {}
-for n, desc in re.findall(r'^\| (C\d\d-[AB][23]?) \| ([^|]*) \|', design, re.M):
+for n, desc in re.findall(r'^\| (C\d\d-[AB][2-9]?) \| ([^|]*) \|', design, re.M):
     tried.setdefault(n[:3].lower(), []).append(desc.strip())
 for line in open(os.path.join(root, "properties.jsonl")):
     p = json.loads(line)
